@@ -150,6 +150,19 @@ def gen_links(tier, seed, rels):
                 else:
                     sh = rng.choice([-37, 250])
                     links.append({"rel": rel, "shift": sh, "base": base, "other": with_y(c, encode([v + sh for v in vals], miss, ndA + sh), ndA + sh)})
+    if "affine" in rels:
+        # exactly two valid cells are a line: every non-GCV variant must return that line at every cell (gaps filled on it)
+        for variant in [v for v in ALLV if v not in ("wcv", "wcvp")]:
+            for _ in range(3 if quick else 12):
+                n = rng.choice([5, 7, 9, 12])
+                i, j = sorted(rng.sample(range(n), 2))
+                a, b = rng.randint(-2000, 4000), rng.choice([-40, -3, 0, 2, 25])
+                line = [a + b * t for t in range(n)]
+                miss = set(range(n)) - {i, j}
+                ndL = min(line) - 500
+                c = params(rng, variant, n, quick)
+                o = with_y(c, encode(line, miss, ndL), ndL)
+                links.append({"rel": "affine", "line": [str(v) for v in line], "base": o, "other": o})
     if "shift" in rels:
         # envelope-sensitive inputs for the asymmetric fixed-lambda smoother: short noisy series around zero (the iteration
         # starts from the zero curve, so the sign of the data decides the first envelope), small lambda, p near 0 / 1, and
